@@ -121,6 +121,7 @@ fn run_check(id: &str, tier: Tier) -> i32 {
         "C05" => {
             let mut r = Report::new("C05", tier, "model_checking");
             r.parts.push(c01::part_c05(tier));
+            r.parts.push(c12::part_c05_dap_frames(tier));
             finish(r)
         }
         "C04" => {
